@@ -17,7 +17,7 @@ SPEC = os.path.join(VERIF, 'spec')
 HARNESS = os.path.join(VERIF, 'harness')
 EVID = os.path.join(VERIF, 'evidence')
 REPLAY = os.path.join(VERIF, 'replay')
-NCPU = os.cpu_count() or 4
+NCPU = int(os.environ.get('VERIF_WORKERS') or os.cpu_count() or 4)
 
 GOENV = dict(os.environ, GOFLAGS='-mod=mod', GOPROXY='off', GOSUMDB='off', GOTOOLCHAIN='local',
              CGO_ENABLED=os.environ.get('CGO_ENABLED', '0'))
@@ -154,11 +154,18 @@ _built = {}
 
 
 def build_harness(race=False, tags='verif'):
-    """Build the Go conformance harness against /repo's *current working tree*."""
+    """Build the Go conformance harness against the *current working tree* of REPO (default /repo).
+    The harness sources are copied to the scratch dir so that nothing is written under /verif."""
     key = (race, tags)
     if key in _built:
         return _built[key]
-    shutil.copy(os.path.join(REPO, 'go.sum'), os.path.join(HARNESS, 'go.sum'))
+    hd = os.path.join(scratch(), 'harness-src')
+    if not os.path.isdir(hd):
+        shutil.copytree(HARNESS, hd, ignore=shutil.ignore_patterns('go.sum'))
+        gm = open(os.path.join(hd, 'go.mod')).read()
+        gm = re.sub(r'replace github.com/rhysd/actionlint => .*', 'replace github.com/rhysd/actionlint => ' + REPO, gm)
+        open(os.path.join(hd, 'go.mod'), 'w').write(gm)
+        shutil.copy(os.path.join(REPO, 'go.sum'), os.path.join(hd, 'go.sum'))
     out = os.path.join(scratch(), 'harness' + ('-race' if race else ''))
     cmd = ['go', 'build', '-tags', tags, '-o', out]
     env = dict(GOENV)
@@ -166,7 +173,7 @@ def build_harness(race=False, tags='verif'):
         cmd.append('-race')
         env['CGO_ENABLED'] = '1'
     cmd.append('./cmd/harness')
-    p = subprocess.run(cmd, cwd=HARNESS, env=env, stdout=subprocess.PIPE, stderr=subprocess.STDOUT, text=True)
+    p = subprocess.run(cmd, cwd=hd, env=env, stdout=subprocess.PIPE, stderr=subprocess.STDOUT, text=True)
     if p.returncode != 0:
         raise Inconclusive('harness build failed:\n' + p.stdout[-4000:])
     _built[key] = out
